@@ -24,7 +24,11 @@
 (* voids it); messages the standby is handed that answer no such obligation *)
 (* (e.g. a replay of older changes) are not judged; the snapshot of a full  *)
 (* sync is the active's table at the moment the synchronous full-sync call  *)
-(* was made (nothing else runs in between).                                 *)
+(* was made (nothing else runs in between). A change pushed while an        *)
+(* attachment is being set up, after the stream was registered, is owed on  *)
+(* that stream; if the standby has already been handed it when the          *)
+(* attachment completes (midhanded), nothing is under way and Convergence   *)
+(* applies at once.                                                         *)
 (***************************************************************************)
 EXTENDS Integers, Sequences, FiniteSets, TLC
 
